@@ -279,10 +279,30 @@ func oracle(prop string, sc schedh.Scenario, obs *schedh.Obs, res *vsched.Result
 		}
 		// never run a target whose dependency failed: neither its command nor its build step (a "building" result means the
 		// target was handed to a build worker; with a failed dependency it may only be marked, never attempted)
+		// (a dependency "failed" if its own command failed or, transitively, one of its dependencies did: it was never built)
+		failedDep := map[string]bool{}
+		var unbuilt func(l string, depth int) bool
+		unbuilt = func(l string, depth int) bool {
+			if failedCmd[l] {
+				return true
+			}
+			if v, ok := failedDep[l]; ok {
+				return v
+			}
+			failedDep[l] = false // cycles do not count
+			if depth < 64 {
+				for _, d := range obs.Deps[l] {
+					if unbuilt(d, depth+1) {
+						failedDep[l] = true
+					}
+				}
+			}
+			return failedDep[l]
+		}
 		for _, e := range obs.Events {
 			if e.Kind == "result" && e.Info == "3" { // core.TargetBuilding
 				for _, d := range obs.Deps[e.Label] {
-					if failedCmd[d] {
+					if unbuilt(d, 0) {
 						return "build-attempted-after-failed-dep", e.Label + " was handed to a build worker although its dependency " + d + " failed\n" + obs.String()
 					}
 				}
@@ -290,7 +310,7 @@ func oracle(prop string, sc schedh.Scenario, obs *schedh.Obs, res *vsched.Result
 		}
 		for l := range starts {
 			for _, d := range obs.Deps[l] {
-				if failedCmd[d] {
+				if unbuilt(d, 0) {
 					return "ran-after-failed-dep", l + " ran although its dependency " + d + " failed\n" + obs.String()
 				}
 			}
